@@ -50,6 +50,15 @@ pub fn batches(ctx: &Ctx) -> Vec<Batch> {
         let words: Vec<String> = (0..r.range(4, 9)).map(|_| { let n = r.range(1, 5); let mut w = String::new(); let mut last = ""; for j in 0..n { let x = *r.pick(&inv); if x == last { continue } if j > 0 && r.chance(1, 3) { w.push('.') } w += x; last = x; } w }).collect();
         v.push(Batch { groups: vec![RuleGroup::from_rules(vec![rule])], words, from: vec![], trace: false, tag: "F" });
     }
+    // (G) the same failing rule text at different (group, line) positions, in separate batches: anything remembered about a rule
+    //     from an earlier call (a parse cache, a position) shows in the error value - provided processes do not all share one history,
+    //     which is why every second child runs its batches in reverse order
+    for (bad, w) in [("a > [Avoice]", "pa.ta"), ("a > [+place]", "pa.ta"), ("{p, t} > {b}", "pa.ta"), ("% > a", "pa.ta"), ("a > 1", "pa.ta"), ("V > [-long, +overlong]", "pa.ta"), ("a > *", "a"), ("p a > & / _ :{ _t, _k }: ", "pa.ta")] {
+        let g = |rules: &[&str]| RuleGroup::from_rules(rules.iter().map(|x| x.to_string()).collect());
+        for groups in [vec![g(&[bad])], vec![g(&["p > b", bad])], vec![g(&["p > b"]), g(&[bad])], vec![g(&[";; note", "", bad]), g(&["t > d"])], vec![g(&["k > g"]), g(&[]), g(&["p > b", "t > d", bad])]] {
+            v.push(Batch { groups, words: vec![w.to_string(), "ki".to_string()], from: vec![], trace: false, tag: "G" });
+        }
+    }
     v
 }
 
@@ -58,7 +67,12 @@ fn eval(b: &Batch, words: &[String]) -> Vec<String> {
         words.iter().map(|w| match crate::isol::guard(crate::isol::DEFAULT_BUDGET, || asca::get_trace_string(&b.groups, w.clone(), &[])) { crate::isol::Outcome::Done(Ok(v)) => v.join(" | "), crate::isol::Outcome::Done(Err(e)) => format!("Err({})", err_kind(&e)), o => format!("Abort({})", o.abort_sig().unwrap_or_default()) }).collect()
     } else {
         // one call per word so that one failing word does not hide the others ...
-        let each: Vec<String> = words.iter().map(|w| match run_pub(&b.groups, &[w.clone()], &[], &b.from) { Ok(v) => v[0].clone(), Err(e) => e.tag() }).collect();
+        // (the error VALUE, positions included: for identical arguments it must be identical too)
+        let each: Vec<String> = words.iter().map(|w| match crate::isol::guard(crate::isol::DEFAULT_BUDGET, || asca::run(&b.groups, &[w.clone()], &[], &b.from)) {
+            crate::isol::Outcome::Done(Ok(v)) => v[0].clone(),
+            crate::isol::Outcome::Done(Err(e)) => format!("Err({e:?})"),
+            o => format!("Abort({})", o.abort_sig().unwrap_or_default()),
+        }).collect();
         each
     }
 }
@@ -66,9 +80,13 @@ fn eval(b: &Batch, words: &[String]) -> Vec<String> {
 /// child: evaluates every batch (twice, and once reversed) and writes the results
 pub fn child(ctx: &Ctx, out: &str) {
     let bs = batches(ctx);
-    let mut results: Vec<Vec<String>> = Vec::new();
+    let mut results: Vec<Vec<String>> = vec![Vec::new(); bs.len()];
     let (mut repeat_diff, mut order_diff, mut list_diff) = (Vec::new(), Vec::new(), Vec::new());
-    for (bi, b) in bs.iter().enumerate() {
+    // every second child works through the batches backwards: processes then differ in call history, not only in hash seed
+    let backwards = ctx.args.iter().any(|a| a == "--c01-backwards");
+    let order: Vec<usize> = if backwards { (0..bs.len()).rev().collect() } else { (0..bs.len()).collect() };
+    for bi in order {
+        let b = &bs[bi];
         let r1 = eval(b, &b.words);
         let r2 = eval(b, &b.words);
         if r1 != r2 { let i = (0..r1.len()).find(|i| r1[*i] != r2[*i]).unwrap(); repeat_diff.push(json!({"batch": bi, "word": b.words[i], "first": r1[i], "second": r2[i]})); }
@@ -81,7 +99,7 @@ pub fn child(ctx: &Ctx, out: &str) {
             if let (Ok(whole), Ok(mut back)) = (run_pub(&b.groups, &b.words, &[], &b.from), run_pub(&b.groups, &rev, &[], &b.from)) { back.reverse(); if whole != back { let i = (0..whole.len().min(back.len())).find(|i| whole[*i] != back[*i]).unwrap_or(0); order_diff.push(json!({"batch": bi, "word": b.words[i], "forward": whole[i], "reversed": back[i], "one_call_per_order": true})); } }
             if let Ok(whole) = run_pub(&b.groups, &b.words, &[], &b.from) { if whole != r1 { let i = (0..r1.len()).find(|i| r1[*i] != whole[*i]).unwrap_or(0); list_diff.push(json!({"batch": bi, "word": b.words[i], "alone": r1[i], "in_list": whole.get(i)})); } }
         }
-        results.push(r1);
+        results[bi] = r1;
     }
     let v = json!({"fingerprint": format!("{:016x}", asca::verif::table_order_fingerprint()), "results": results, "repeat_diff": repeat_diff, "order_diff": order_diff, "list_diff": list_diff});
     std::fs::write(out, serde_json::to_string(&v).unwrap()).expect("write child output");
@@ -91,9 +109,9 @@ pub fn explore(ctx: &Ctx, shard: usize, _n: usize) -> Report {
     if let Some(i) = ctx.args.iter().position(|a| a == "--c01-child") { if shard == 0 { child(ctx, &ctx.args[i + 1]); } return Report::default() }
     let mut rep = Report::new(RULE);
     if shard != 0 { return rep }
-    let k = ctx.pick(8, 48) as usize;
+    let k = ctx.args.iter().position(|a| a == "--c01-k").and_then(|i| ctx.args.get(i + 1)).and_then(|x| x.parse().ok()).unwrap_or(ctx.pick(8, 48) as usize);
     let exe = std::env::current_exe().expect("exe");
-    let dir = std::env::temp_dir().join(format!("vh-c01-{}", std::process::id()));
+    let dir = std::env::current_dir().unwrap_or_else(|_| std::env::temp_dir()).join(format!("vh-c01-{}", std::process::id()));
     let _ = std::fs::create_dir_all(&dir);
     let bs = batches(ctx);
     // run the children, at most `threads` at a time
@@ -104,7 +122,7 @@ pub fn explore(ctx: &Ctx, shard: usize, _n: usize) -> Report {
         let mut procs = Vec::new();
         for p in &wave {
             let of = dir.join(format!("child{p}.json"));
-            let c = std::process::Command::new(&exe).args(["C01", "explore", "--tier", if ctx.quick() { "quick" } else { "thorough" }, "--seed", &ctx.seed.to_string(), "--threads", "1", "--c01-child", of.to_str().unwrap(), "--out", "/dev/null"])
+            let c = std::process::Command::new(&exe).args(["C01", "explore", "--tier", if ctx.quick() { "quick" } else { "thorough" }, "--seed", &ctx.seed.to_string(), "--threads", "1", "--c01-child", of.to_str().unwrap(), "--out", "/dev/null", if p % 2 == 1 { "--c01-backwards" } else { "--c01-forwards" }])
                 .stdin(std::process::Stdio::null()).stdout(std::process::Stdio::null()).stderr(std::process::Stdio::null()).spawn();
             procs.push((of, c));
         }
@@ -134,7 +152,7 @@ pub fn explore(ctx: &Ctx, shard: usize, _n: usize) -> Report {
                 let distinct: std::collections::BTreeSet<&str> = vals.iter().cloned().collect();
                 let rule = b.groups[0].rule.first().cloned().unwrap_or_default();
                 let kind = match b.tag { "B" => "plus-romaniser", "E" => "trace", _ => "run" };
-                rep.violation(format!("differs-between-processes:{kind}"), || json!({"case": {"rule": rule, "word": w, "from": b.from, "trace": b.trace}, "observed": distinct, "processes": good.len()}));
+                rep.violation(format!("differs-between-processes:{kind}"), || json!({"case": {"rule": rule, "word": w, "from": b.from, "trace": b.trace, "seed": ctx.seed, "tier": if ctx.quick() { "quick" } else { "thorough" }, "batch": bi}, "observed": distinct, "processes": good.len()}));
             }
         }
     }
@@ -184,6 +202,22 @@ pub fn replay(ctx: &Ctx, v: &Value) -> Report {
         if let Ok(o) = std::process::Command::new(&exe).args(["C01", "replay", "--cases", "/dev/null", "--c01-one", &v.to_string()]).output() { seen.insert(String::from_utf8_lossy(&o.stdout).lines().next().unwrap_or("").to_string()); }
     }
     rep.eval(6);
+    if seen.len() <= 1 && v["seed"].is_u64() {
+        // fresh processes agree on the one input: the difference may need the call history of a whole run - two children, one
+        // working forwards and one backwards through the batches of the witness' seed and tier
+        let of = std::env::current_dir().unwrap_or_else(|_| std::env::temp_dir()).join(format!("vh-c01-replay-{}.json", std::process::id()));
+        let st = std::process::Command::new(&exe).args(["C01", "explore", "--tier", v["tier"].as_str().unwrap_or("quick"), "--seed", &v["seed"].as_u64().unwrap_or(1).to_string(), "--threads", "2", "--c01-k", "2", "--out", of.to_str().unwrap_or("")])
+            .stdin(std::process::Stdio::null()).stdout(std::process::Stdio::null()).stderr(std::process::Stdio::null()).status();
+        if st.map(|x| x.success()).unwrap_or(false) {
+            if let Some(r2) = std::fs::read_to_string(&of).ok().and_then(|t| serde_json::from_str::<Value>(&t).ok()) {
+                for vi in r2["violations"].as_array().cloned().unwrap_or_default() {
+                    if vi["signature"].as_str().unwrap_or("").starts_with("differs-between-processes") { let sig = vi["signature"].as_str().unwrap_or("").to_string(); rep.violation(sig, || json!({"case": v, "observed": vi["detail"]["observed"], "note": "reproduced by a two-process run (forwards / backwards) of the witness' workload"})); break }
+                }
+            }
+        }
+        let _ = std::fs::remove_file(&of);
+        return rep;
+    }
     if seen.len() > 1 { let kind = if !jstrs(v, "from").is_empty() { "plus-romaniser" } else if v["trace"].as_bool().unwrap_or(false) { "trace" } else { "run" }; rep.violation(format!("differs-between-processes:{kind}"), || json!({"case": v, "observed": seen})); }
     rep
 }
